@@ -1,5 +1,6 @@
 (* C02 — the program-level simulation of Proofs/C02SimProofs.v instantiated with the scalar expression fragment
-   (Proofs/C01EvalProofs.v), the initial states of a render, and the statement about whole renders. *)
+   (Proofs/C01EvalProofs.v), the initial states of a render (top-level data: scalars and arrays of scalars), and the
+   statement about whole renders. *)
 From PV Require Import Base.Bytes Base.Escape Js.Ast Tmpl.Value Tmpl.IR Tmpl.Runtime Tmpl.Exec Pug.Ast Pug.Compile
   Pug.Lower Spec.Sem Spec.HtmlSer Proofs.ExecMono Proofs.C01Proofs Proofs.C02Proofs Proofs.C03Proofs Proofs.C06Proofs
   Proofs.C01EvalProofs Proofs.C02SimProofs Run.Judge_Core.
@@ -14,28 +15,143 @@ Lemma repu_num v z : repu v (JN z) -> v = VInt z \/ v = VNum z.
 Proof. intros R. apply repu_rep in R; [|discriminate]. inversion R; auto. Qed.
 Lemma repu_num_intro z : repu (VNum z) (JN z).
 Proof. left. constructor. Qed.
+Lemma repu_int_intro z : repu (VInt z) (JN z).
+Proof. left. constructor. Qed.
+Lemma repu_nullish v j : repu v j -> j = JUndef \/ j = JNul -> v = VNil \/ v = VInvalid.
+Proof. intros [H|[-> _]] Hj; [|left; reflexivity]. destruct H; destruct Hj; try discriminate; auto. Qed.
 Lemma jv_ok_num z : in_range z = true -> jv_ok (JN z).
 Proof. exact (fun H => H). Qed.
-
-Lemma goodS_id funcs names x : goodS funcs names (JId x) = true -> In x names.
-Proof. intros Hg. destruct (goodS_parts funcs names _ Hg) as (_ & Hfv & _). apply Hfv. left; reflexivity. Qed.
+Lemma repu_gostr_intro t : repu (VGoStr t) (JS t).
+Proof. left. constructor. Qed.
+Lemma jv_ok_str t : jv_ok (JS t).
+Proof. exact I. Qed.
 
 Lemma void_agree_holds name : is_void name = mem name void_tags.
 Proof. rewrite is_void_spec. reflexivity. Qed.
 
-Lemma goodS_print_R funcs names e :
-  goodS funcs names e = true -> Lower.printable e = true ->
-  forall defs f dot s g g1 j t g2, R names repu jv_ok s g ->
-    sem_expr efuel g e = SOk (j, g1) -> print_string g1 j = SOk (t, g2) -> s_flags g2 = s_flags g ->
-    exists a, lx funcs (goodS funcs names) e = Some a /\
-              exec_node defs (S f) dot s (NAction ([], [a] :: esc_cmds false)) = Ok (emit s (escape t)) /\
-              s_env g2 = s_env g /\ s_out g2 = s_out g.
+(* on the scalar fragment the identifiers an expression mentions are its variables *)
+Lemma evars_fv funcs : forall e, scalar_core funcs e = true -> evars e = fv e.
 Proof.
-  intros Hg Hp defs f dot s g g1 j t g2 Rr Hs Hpr Hf.
-  exact (goodS_print funcs names e true Hg Hp defs f dot s g g1 j t g2 (R_env _ _ _ _ _ Rr) (R_rng _ _ _ _ _ Rr) Hs Hpr Hf eq_refl).
+  induction e as [x|z|txt|t|parts|b| |es|kvs|e0 IH0 name|e0 IH0 i IHi|fn IHfn args|fn IHfn args|op p x IHx
+                 |op l IHl r IHr|c IHc a IHa b IHb|op l IHl r IHr|es|x init];
+    intros Hsc; try discriminate Hsc; try reflexivity.
+  - assert (Hscx : scalar_core funcs x = true) by (destruct op; try discriminate Hsc; exact Hsc).
+    cbn [evars fv]. exact (IHx Hscx).
+  - cbn [scalar_core] in Hsc. apply andb_prop in Hsc. destruct Hsc as [Hsc Hscr].
+    apply andb_prop in Hsc. destruct Hsc as [_ Hscl]. cbn [evars fv]. rewrite (IHl Hscl), (IHr Hscr). reflexivity.
+  - cbn [scalar_core] in Hsc. apply andb_prop in Hsc. destruct Hsc as [Hsc Hscb].
+    apply andb_prop in Hsc. destruct Hsc as [Hscc Hsca]. cbn [evars fv].
+    rewrite (IHc Hscc), (IHa Hsca), (IHb Hscb). reflexivity.
 Qed.
 
-(* the simulation for the scalar, each-free control fragment: every hypothesis discharged *)
+Lemma goodS_own funcs names e : goodS funcs names e = true -> goodS funcs (fv e) e = true.
+Proof.
+  intros Hg. destruct (goodS_parts funcs names e Hg) as (Hsc & _ & Hn & Hd). unfold goodS.
+  rewrite Hsc, Hd. apply Nat.ltb_lt in Hn. rewrite Hn. rewrite !andb_true_r. cbn [andb].
+  apply forallb_forall. intros x Hx. apply mem_In. exact Hx.
+Qed.
+Lemma lexpr_goodS funcs n1 n2 e :
+  goodS funcs n1 e = true -> goodS funcs n2 e = true ->
+  lexpr funcs (goodS funcs n1) e = lexpr funcs (goodS funcs n2) e.
+Proof. intros H1 H2. unfold lexpr. rewrite H1, H2. reflexivity. Qed.
+
+Definition on_repu (e : jexpr) (vs : vars) (env : list (bytes * jv)) : Prop :=
+  on_vars repu jv_ok e vs env.
+Lemma on_vars_fv funcs e vs env :
+  scalar_core funcs e = true -> on_vars repu jv_ok e vs env -> env_repu_on (fv e) vs env /\ env_range_on (fv e) env.
+Proof.
+  intros Hsc H. unfold on_vars in H. rewrite (evars_fv funcs e Hsc) in H. split; intros x Hx; [exact (proj1 (H x Hx))|exact (proj2 (H x Hx))].
+Qed.
+
+Lemma goodS_eval_on funcs names e :
+  goodS funcs names e = true ->
+  forall E h g j g', on_vars repu jv_ok e (e_vars E) (s_env g) ->
+    sem_expr efuel g e = SOk (j, g') -> s_flags g' = s_flags g ->
+    exists a v, lx funcs (goodS funcs names) e = Some a /\
+                (forall d, eval_pipeline E h (d, [[a]]) = Ok (v, h)) /\ repu v j /\ jv_ok j.
+Proof.
+  intros Hg E h g j g' Hon Hs Hf. destruct (goodS_parts funcs names e Hg) as (Hsc & _).
+  destruct (on_vars_fv funcs e _ _ Hsc Hon) as [Hrep Hrng].
+  destruct (goodS_eval_pipeline funcs (fv e) e (goodS_own funcs names e Hg) E h g j g' Hrep Hrng Hs Hf)
+    as (a & v & La & Ev & Hv & Hj & _).
+  exists a, v. unfold lx. rewrite (lexpr_goodS funcs names (fv e) e Hg (goodS_own funcs names e Hg)).
+  split; [exact La|split; [exact Ev|split; assumption]].
+Qed.
+
+Lemma goodS_same funcs names e :
+  goodS funcs names e = true ->
+  forall g j g', sem_expr efuel g e = SOk (j, g') -> s_flags g' = s_flags g -> g' = g.
+Proof.
+  intros Hg g j g' Hs Hf. destruct (goodS_parts funcs names e Hg) as (Hsc & _).
+  exact (sem_same_state funcs efuel g e j g' Hsc Hs Hf).
+Qed.
+
+Lemma goodS_fv funcs names e : goodS funcs names e = true -> forall x, In x (evars e) -> In x names.
+Proof.
+  intros Hg x Hx. destruct (goodS_parts funcs names e Hg) as (Hsc & Hfv & _).
+  rewrite (evars_fv funcs e Hsc) in Hx. exact (Hfv x Hx).
+Qed.
+
+Lemma goodS_print_on funcs names e :
+  goodS funcs names e = true -> Lower.printable e = true ->
+  forall defs f dot s g j t, on_vars repu jv_ok e (f_vars (cur s)) (s_env g) ->
+    sem_expr efuel g e = SOk (j, g) -> print_string g j = SOk (t, g) ->
+    exists a, lx funcs (goodS funcs names) e = Some a /\
+              exec_node defs (S f) dot s (NAction ([], [a] :: esc_cmds false)) = Ok (emit s (escape t)).
+Proof.
+  intros Hg Hp defs f dot s g j t Hon Hs Hpr. destruct (goodS_parts funcs names e Hg) as (Hsc & _).
+  destruct (on_vars_fv funcs e _ _ Hsc Hon) as [Hrep Hrng].
+  destruct (goodS_print funcs (fv e) e true (goodS_own funcs names e Hg) Hp defs f dot s g g j t g Hrep Hrng Hs Hpr eq_refl eq_refl)
+    as (a & La & X & _).
+  exists a. unfold lx. rewrite (lexpr_goodS funcs names (fv e) e Hg (goodS_own funcs names e Hg)).
+  split; [exact La|exact X].
+Qed.
+
+(* a when's test: `__op__eql e w` is the expression e === w *)
+Lemma lexpr_carg funcs gb e a : lexpr funcs gb e = Some a -> exists t, carg funcs true e = Some (t, Some a).
+Proof.
+  unfold lexpr. destruct (gb e); [|discriminate]. destruct (carg funcs true e) as [[t [a'|]]|]; try discriminate.
+  intros H. injection H as ->. exists t. reflexivity.
+Qed.
+
+Local Strategy opaque [eval_cmds eval_operand eval_args call_ident field_chain eval_field].
+Lemma eval_cmd_pipe f E h cmds : eval_cmd (S f) E h [APipe [] cmds] VInvalid = eval_cmds f E h cmds VInvalid.
+Proof. reflexivity. Qed.
+Local Strategy opaque [eval_cmd].
+
+Lemma goodS_case funcs names e w :
+  goodS funcs names (JBin BSEq e w) = true ->
+  forall E h g v wv, on_vars repu jv_ok e (e_vars E) (s_env g) -> on_vars repu jv_ok w (e_vars E) (s_env g) ->
+    sem_expr efuel g e = SOk (v, g) -> sem_expr efuel g w = SOk (wv, g) ->
+    forall ea wa, lx funcs (goodS funcs names) e = Some ea -> lx funcs (goodS funcs names) w = Some wa ->
+    forall b, jv_strict_eq v wv = Some b ->
+    exists vb, eval_pipeline E h (eql_pipe ea wa) = Ok (vb, h) /\ truthy h vb = Ok b.
+Proof.
+  intros Hg E h g v wv One Onw Ee Ew ea wa Le Lw b Eq.
+  destruct (goodS_parts funcs names _ Hg) as (Hsc & _ & Hn & Hd).
+  pose proof Hsc as Hsc0. cbn [scalar_core] in Hsc0. apply andb_prop in Hsc0. destruct Hsc0 as [Hsc0 Hscw].
+  apply andb_prop in Hsc0. destruct Hsc0 as [_ Hsce].
+  destruct (on_vars_fv funcs e _ _ Hsce One) as [Hrepe Hrnge].
+  destruct (on_vars_fv funcs w _ _ Hscw Onw) as [Hrepw Hrngw].
+  assert (Hrep : env_repu_on (fv (JBin BSEq e w)) (e_vars E) (s_env g)).
+  { intros x Hx. cbn [fv] in Hx. apply in_app_or in Hx. destruct Hx; [apply Hrepe|apply Hrepw]; assumption. }
+  assert (Hrng : env_range_on (fv (JBin BSEq e w)) (s_env g)).
+  { intros x Hx. cbn [fv] in Hx. apply in_app_or in Hx. destruct Hx; [apply Hrnge|apply Hrngw]; assumption. }
+  assert (Hs : sem_expr (S efuel) g (JBin BSEq e w) = SOk (JB b, g)).
+  { rewrite (sem_bin efuel g BSEq e w eq_refl), Ee. cbn [sbind]. rewrite Ew. cbn [sbind sem_binop]. rewrite Eq. reflexivity. }
+  destruct (compile_eval_fuel_safe funcs E h (JBin BSEq e w) (S expr_fuel) (S efuel) g (JB b) g Hsc
+              (Nat.lt_le_incl _ _ (Nat.lt_lt_succ_r _ _ Hn)) Hrep Hrng Hs eq_refl Hd)
+    as (t & a & vb & Hc & _ & Hcmd & Rb & _).
+  destruct (lexpr_carg _ _ _ _ Le) as [te Ce]. destruct (lexpr_carg _ _ _ _ Lw) as [tw Cw].
+  assert (Ha : a = APipe [] [[AIdent (B "__op__eql"); ea; wa]]).
+  { cbn [carg] in Hc. rewrite (helper_name BSEq eq_refl) in Hc. rewrite (helper_runtime BSEq eq_refl) in Hc.
+    cbn [negb] in Hc. rewrite Ce, Cw in Hc. injection Hc as _ <-. reflexivity. }
+  subst a. exists vb. split.
+  - rewrite eval_cmd_pipe in Hcmd. unfold eval_pipeline, eql_pipe. cbn [snd]. exact Hcmd.
+  - rewrite (truthy_u h g vb (JB b) Rb). reflexivity.
+Qed.
+
+(* the simulation for the scalar control fragment: every hypothesis discharged *)
 Theorem sim_scalar funcs names globals fs :
   P_nodes funcs (goodS funcs names) names globals repu jv_ok fs /\
   P_node funcs (goodS funcs names) names globals repu jv_ok fs.
@@ -45,15 +161,21 @@ Proof.
   - exact repu_bool.
   - exact repu_num.
   - exact repu_num_intro.
+  - exact repu_int_intro.
+  - exact repu_not_ref.
+  - exact repu_nullish.
+  - exact repu_gostr_intro.
   - exact jv_ok_num.
-  - intros e Hg E h g j g' Hrep Hrng Hs Hf. exact (goodS_eval_pipeline funcs names e Hg E h g j g' Hrep Hrng Hs Hf).
+  - exact jv_ok_str.
+  - intros e Hg. exact (goodS_eval_on funcs names e Hg).
+  - intros e Hg. exact (goodS_same funcs names e Hg).
   - intros e Hg. exact (goodS_mono funcs names e Hg).
   - intros e Hg. exact (goodS_noerr funcs names e Hg).
-  - exact (goodS_id funcs names).
-  - exact (goodS_print_R funcs names).
+  - intros e Hg. exact (goodS_fv funcs names e Hg).
+  - intros e Hg Hp. exact (goodS_print_on funcs names e Hg Hp).
+  - intros e w Hg. exact (goodS_case funcs names e w Hg).
   - exact void_agree_holds.
 Qed.
-
 (* ---- the initial states of a render ----------------------------------------------------------------------------- *)
 (* top-level data: a map of scalars (numbers in range) whose keys start with no upper-case letter (the engine
    also binds $lowerFirst(k)); the engine's own variable $global is not a name of the program *)
@@ -232,37 +354,406 @@ Qed.
 Lemma rep_cv_sv d : scalar_d d = true -> rep (cv d) (sv d) /\ jv_ok (sv d).
 Proof. destruct d; try discriminate; cbn; intros H; split; try constructor; try exact I; exact H. Qed.
 
-Lemma R_init names l :
-  forallb entry_ok l = true -> mem (B "global") names = false ->
-  R names repu jv_ok (s_init l) (g_init l).
+(* ---- the initial states of a render, data with arrays ------------------------------------------------------------ *)
+(* top-level data: a map whose entries are scalars (numbers in range) or — under a key that is not one of the scalar
+   names — arrays of scalars (fewer than 10^10 elements) or maps of scalars (keys listed in ascending order); top-level
+   keys start with no upper-case letter; the engine's own variable $global is not a name of the program.
+   [data_ok] (scalars only) is the special case. *)
+
+Definition arr_d (d : dval) : bool :=
+  match d with DArr l => forallb scalar_d l && in_range (Z.of_nat (length l)) | _ => false end.
+(* strictly ascending keys: every key is below every later one *)
+Fixpoint asc (ks : list bytes) : bool :=
+  match ks with [] => true | k :: r => forallb (fun y => bytes_lt k y) r && asc r end.
+(* a map of scalars, its keys listed in ascending order (a Go map has no order of its own; this fixes the listing) *)
+Definition map_d (d : dval) : bool :=
+  match d with DMap l => forallb (fun kv => scalar_d (snd kv)) l && asc (map fst l) | _ => false end.
+Definition coll_d (d : dval) : bool := arr_d d || map_d d.
+Definition entry_ok_arr (names : list bytes) (kv : bytes * dval) : bool :=
+  (scalar_d (snd kv) || (coll_d (snd kv) && negb (mem (fst kv) names))) && beqb (lower_first (fst kv)) (fst kv).
+Definition data_ok_arr (names : list bytes) (d : dval) : bool :=
+  match d with
+  | DMap l => forallb (entry_ok_arr names) l && negb (mem (B "global") names)
+  | _ => false
+  end.
+
+(* the local loops of convert / sdata_val / sem_run, named *)
+Definition conv_list := fix go (l : list dval) (h : heap) : list val * heap :=
+  match l with
+  | [] => ([], h)
+  | x :: r => let '(v, h1) := convert h x in let '(vs, h2) := go r h1 in (v :: vs, h2)
+  end.
+Definition conv_items := fix go (l : list (bytes * dval)) (h : heap) : list (bytes * val) * heap :=
+  match l with
+  | [] => ([], h)
+  | (k, x) :: r => let '(v, h1) := convert h x in let '(vs, h2) := go r h1 in (insert k v vs, h2)
+  end.
+Definition sconv_list := fix go (l : list sdata) (h : jheap) : list jv * jheap :=
+  match l with
+  | [] => ([], h)
+  | x :: r => let '(v, h1) := sdata_val h x in let '(vs, h2) := go r h1 in (v :: vs, h2)
+  end.
+Definition sconv_env := fix go (l : list (bytes * sdata)) (h : jheap) : list (bytes * jv) * jheap :=
+  match l with
+  | [] => ([], h)
+  | (k, x) :: r => let '(v, h1) := sdata_val h x in let '(e, h2) := go r h1 in (insert k v e, h2)
+  end.
+
+Lemma convert_arr h l :
+  convert h (DArr l) = (let '(items, h1) := conv_list l h in let '(loc, h2) := alloc h1 (OArr items) in (VArr loc, h2)).
+Proof. reflexivity. Qed.
+Lemma convert_dmap h l :
+  convert h (DMap l) = (let '(items, h1) := conv_items l h in let '(loc, h2) := alloc h1 (OMap items []) in (VMap loc, h2)).
+Proof. reflexivity. Qed.
+Lemma sdata_arr h l :
+  sdata_val h (SDArr l) =
+  (let '(items, h1) := sconv_list l h in let '(loc, h2) := jalloc h1 (JArrO items) in (JA loc, h2)).
+Proof. reflexivity. Qed.
+
+Lemma conv_list_scalar l h : forallb scalar_d l = true -> conv_list l h = (map cv l, h).
+Proof.
+  induction l as [|x r IH]; intros H; [reflexivity|]. cbn [forallb] in H. apply andb_prop in H. destruct H as [Hx Hr].
+  cbn [conv_list map]. rewrite (convert_scalar h x Hx). fold conv_list. rewrite (IH Hr). reflexivity.
+Qed.
+Lemma sconv_list_scalar l h : forallb scalar_d l = true -> sconv_list (map sd_of l) h = (map sv l, h).
+Proof.
+  induction l as [|x r IH]; intros H; [reflexivity|]. cbn [forallb] in H. apply andb_prop in H. destruct H as [Hx Hr].
+  cbn [sconv_list map]. rewrite (sdata_scalar h x Hx). fold sconv_list. rewrite (IH Hr). reflexivity.
+Qed.
+
+
+(* ---- ascending key lists: both sides' sorting leaves them as they are --------------------------------------------- *)
+Lemma bytes_lt_ltb a : forall b, bytes_lt a b = bytes_ltb a b.
+Proof. intros b. reflexivity. Qed.
+Lemma bytes_ltb_asym a : forall b, bytes_ltb a b = true -> bytes_ltb b a = false.
+Proof.
+  induction a as [|x a IH]; intros [|y b]; cbn; intros H; try discriminate; try reflexivity.
+  destruct (N.ltb (N_of_ascii x) (N_of_ascii y)) eqn:E1.
+  - apply N.ltb_lt in E1. assert (E2 : N.ltb (N_of_ascii y) (N_of_ascii x) = false) by (apply N.ltb_ge; lia).
+    rewrite E2. reflexivity.
+  - destruct (N.ltb (N_of_ascii y) (N_of_ascii x)) eqn:E2; [discriminate H|]. exact (IH b H).
+Qed.
+Lemma bytes_ltb_irrefl a : bytes_ltb a a = false.
+Proof. destruct (bytes_ltb a a) eqn:E; [|reflexivity]. rewrite (bytes_ltb_asym a a E) in E. discriminate E. Qed.
+
+Lemma asc_head k r x : asc (k :: r) = true -> In x r -> bytes_ltb k x = true.
+Proof.
+  cbn [asc]. intros H Hx. apply andb_prop in H. destruct H as [H _]. rewrite forallb_forall in H.
+  rewrite <- bytes_lt_ltb. exact (H x Hx).
+Qed.
+Lemma asc_tail k r : asc (k :: r) = true -> asc r = true.
+Proof. cbn [asc]. intros H. apply andb_prop in H. exact (proj2 H). Qed.
+Lemma asc_not_in k r : asc (k :: r) = true -> ~ In k r.
+Proof. intros H Hk. pose proof (asc_head k r k H Hk) as E. rewrite bytes_ltb_irrefl in E. discriminate E. Qed.
+
+Lemma insert_sorted_last k : forall acc,
+  (forall y, In y acc -> bytes_ltb k y = false) -> insert_sorted bytes_ltb k acc = acc ++ [k].
+Proof.
+  induction acc as [|y r IH]; intros H; [reflexivity|]. cbn [insert_sorted app]. rewrite (H y (or_introl eq_refl)).
+  rewrite IH; [reflexivity|]. intros z Hz. apply H. right; exact Hz.
+Qed.
+Lemma sort_fold_left ks : forall acc, asc ks = true ->
+  (forall y x, In y acc -> In x ks -> bytes_ltb x y = false) ->
+  fold_left (fun a x => insert_sorted bytes_ltb x a) ks acc = acc ++ ks.
+Proof.
+  induction ks as [|k r IH]; intros acc Ha H; [rewrite app_nil_r; reflexivity|]. cbn [fold_left].
+  rewrite (insert_sorted_last k acc) by (intros y Hy; exact (H y k Hy (or_introl eq_refl))).
+  rewrite (IH (acc ++ [k]) (asc_tail k r Ha)).
+  - rewrite <- app_assoc. reflexivity.
+  - intros y x Hy Hx. apply in_app_or in Hy. destruct Hy as [Hy|[<-|[]]].
+    + exact (H y x Hy (or_intror Hx)).
+    + apply bytes_ltb_asym. exact (asc_head k r x Ha Hx).
+Qed.
+Lemma sort_bytes_rev_asc ks : asc ks = true -> sort_bytes (rev ks) = ks.
+Proof.
+  intros Ha. unfold sort_bytes. rewrite fold_left_rev_right.
+  exact (sort_fold_left ks [] Ha (fun y x Hy _ => match Hy with end)).
+Qed.
+
+Lemma insert_fresh {A} k (v : A) : forall m, ~ In k (keys m) -> insert k v m = m ++ [(k, v)].
+Proof.
+  induction m as [|[k0 v0] r IH]; intros H; [reflexivity|]. cbn [insert app].
+  destruct (beqb k k0) eqn:E; [apply beqb_eq in E; subst; exfalso; apply H; left; reflexivity|].
+  rewrite IH; [reflexivity|]. intros Hr. apply H. right. exact Hr.
+Qed.
+Lemma keys_items_asc kvs : asc (map fst kvs) = true -> keys (items_of kvs) = rev (map fst kvs).
+Proof.
+  induction kvs as [|[k d] r IH]; intros Ha; [reflexivity|]. cbn [map fst] in Ha. cbn [items_of map fst rev].
+  pose proof (IH (asc_tail _ _ Ha)) as Hk.
+  rewrite insert_fresh.
+  - unfold keys in *. rewrite map_app, Hk. reflexivity.
+  - rewrite Hk. intros H. apply in_rev in H. exact (asc_not_in _ _ Ha H).
+Qed.
+Lemma asc_lookup {A} (kvs : list (bytes * A)) : asc (map fst kvs) = true ->
+  forall k d, In (k, d) kvs -> lookup k kvs = Some d.
+Proof.
+  induction kvs as [|[k0 d0] r IH]; intros Ha k d H; [destruct H|]. cbn [map fst] in Ha. cbn [lookup].
+  destruct H as [H|H].
+  - injection H as -> ->. rewrite beqb_refl. reflexivity.
+  - destruct (beqb k k0) eqn:E.
+    + apply beqb_eq in E. subst k0. exfalso. apply (asc_not_in _ _ Ha). apply in_map_iff. exists (k, d). split; [reflexivity|exact H].
+    + exact (IH (asc_tail _ _ Ha) k d H).
+Qed.
+Lemma sorted_id (props : list (bytes * jv)) :
+  asc (map fst props) = true -> fold_right (fun p acc => ins_sorted bytes_lt p acc) [] props = props.
+Proof.
+  induction props as [|p r IH]; intros Ha; [reflexivity|]. cbn [map] in Ha. cbn [fold_right].
+  rewrite (IH (asc_tail _ _ Ha)). destruct r as [|y r']; [reflexivity|]. cbn [ins_sorted].
+  rewrite bytes_lt_ltb, (asc_head _ _ (fst y) Ha (or_introl eq_refl)). reflexivity.
+Qed.
+
+Definition sconv_props := fix go (l : list (bytes * sdata)) (h : jheap) : list (bytes * jv) * jheap :=
+  match l with
+  | [] => ([], h)
+  | (k, x) :: r => let '(v, h1) := sdata_val h x in let '(vs, h2) := go r h1 in ((k, v) :: vs, h2)
+  end.
+Lemma sdata_map h l :
+  sdata_val h (SDMap l) =
+  (let '(props, h1) := sconv_props l h in
+   let sorted := fold_right (fun p acc => ins_sorted bytes_lt p acc) [] props in
+   let '(loc, h2) := jalloc h1 (JObjO sorted) in (JO loc, h2)).
+Proof. reflexivity. Qed.
+Definition props_of (kvs : list (bytes * dval)) : list (bytes * jv) := map (fun kv => (fst kv, sv (snd kv))) kvs.
+Lemma sconv_props_scalar kvs h : forallb (fun kv => scalar_d (snd kv)) kvs = true ->
+  sconv_props (map (fun kv => (fst kv, sd_of (snd kv))) kvs) h = (props_of kvs, h).
+Proof.
+  induction kvs as [|[k d] r IH]; intros H; [reflexivity|]. cbn [forallb snd] in H. apply andb_prop in H. destruct H as [Hx Hr].
+  cbn [map fst snd sconv_props]. rewrite (sdata_scalar h d Hx). fold sconv_props. rewrite (IH Hr). reflexivity.
+Qed.
+Lemma props_of_keys kvs : map fst (props_of kvs) = map fst kvs.
+Proof. unfold props_of. rewrite map_map. reflexivity. Qed.
+
+(* the members of a data map in the engine's iteration order are S's properties in theirs *)
+Lemma map_members_rel kvs :
+  forallb (fun kv => scalar_d (snd kv)) kvs = true -> asc (map fst kvs) = true ->
+  Forall2 (fun k p => k = fst p /\ repu (member_lookup (items_of kvs) k) (snd p) /\ jv_ok (snd p))
+          (sort_bytes (keys (items_of kvs))) (props_of kvs).
+Proof.
+  intros Hs Ha. rewrite (keys_items_asc kvs Ha), (sort_bytes_rev_asc _ Ha).
+  assert (H : forall kv, In kv kvs ->
+            fst kv = fst (fst kv, sv (snd kv)) /\ repu (member_lookup (items_of kvs) (fst kv)) (snd (fst kv, sv (snd kv))) /\
+            jv_ok (snd (fst kv, sv (snd kv)))).
+  { intros [k d] Hin. cbn [fst snd]. split; [reflexivity|].
+    rewrite forallb_forall in Hs. pose proof (Hs _ Hin) as Hd. cbn [snd] in Hd.
+    unfold member_lookup. rewrite lookup_items, (asc_lookup kvs Ha k d Hin). cbn [option_map].
+    destruct (rep_cv_sv d Hd) as [H1 H2]. split; [left; exact H1|exact H2]. }
+  unfold props_of. clear Hs Ha. revert H. generalize (items_of kvs). intros items.
+  induction kvs as [|kv r IH]; intros H; [constructor|]. cbn [map]. constructor.
+  - exact (H kv (or_introl eq_refl)).
+  - apply IH. intros kv' Hin. exact (H kv' (or_intror Hin)).
+Qed.
+
+(* what a data value becomes on the two sides, relative to the heaps that hold the collections *)
+Definition dr (h : heap) (jh : jheap) (d : dval) (v : val) (j : jv) : Prop :=
+  (scalar_d d = true /\ v = cv d /\ j = sv d) \/
+  (exists ds l l', d = DArr ds /\ arr_d d = true /\ v = VArr l /\ j = JA l' /\
+                   hget h l = Some (OArr (map cv ds)) /\ jget jh l' = Some (JArrO (map sv ds))) \/
+  (exists kvs l l', d = DMap kvs /\ map_d d = true /\ v = VMap l /\ j = JO l' /\
+                    hget h l = Some (OMap (items_of kvs) []) /\ jget jh l' = Some (JObjO (props_of kvs))).
+
+Lemma nth_error_ext {A} (h e : list A) n x : nth_error h n = Some x -> nth_error (h ++ e) n = Some x.
+Proof.
+  intros H. rewrite nth_error_app1; [exact H|]. apply nth_error_Some. rewrite H. discriminate.
+Qed.
+Lemma nth_error_last {A} (h : list A) x : nth_error (h ++ [x]) (length h) = Some x.
+Proof. rewrite nth_error_app2 by apply le_n. rewrite Nat.sub_diag. reflexivity. Qed.
+
+Lemma dr_ext h jh e e' d v j : dr h jh d v j -> dr (h ++ e) (jh ++ e') d v j.
+Proof.
+  intros [H|[(ds & l & l' & Hd & Ha & Hv & Hj & Hh & Hjh)|(kvs & l & l' & Hd & Ha & Hv & Hj & Hh & Hjh)]];
+    [left; exact H|right; left|right; right].
+  - exists ds, l, l'. repeat (split; [assumption|]). split; [exact (nth_error_ext h e l _ Hh)|exact (nth_error_ext jh e' l' _ Hjh)].
+  - exists kvs, l, l'. repeat (split; [assumption|]). split; [exact (nth_error_ext h e l _ Hh)|exact (nth_error_ext jh e' l' _ Hjh)].
+Qed.
+
+Lemma convert_dr h jh d :
+  scalar_d d || coll_d d = true ->
+  exists v j e e', convert h d = (v, h ++ e) /\ sdata_val jh (sd_of d) = (j, jh ++ e') /\ dr (h ++ e) (jh ++ e') d v j.
+Proof.
+  intros H. destruct (scalar_d d) eqn:Hs.
+  - exists (cv d), (sv d), [], []. rewrite !app_nil_r.
+    split; [exact (convert_scalar h d Hs)|]. split; [exact (sdata_scalar jh d Hs)|]. left. repeat split. exact Hs.
+  - cbn [orb] in H. unfold coll_d in H. destruct d as [| | | |ds|kvs]; try discriminate H.
+    + cbn [map_d] in H. rewrite orb_false_r in H.
+      pose proof H as Ha. cbn [arr_d] in H. apply andb_prop in H. destruct H as [Hall _].
+      exists (VArr (length h)), (JA (length jh)), [OArr (map cv ds)], [JArrO (map sv ds)].
+      split; [|split].
+      * rewrite convert_arr, (conv_list_scalar ds h Hall). reflexivity.
+      * cbn [sd_of]. rewrite sdata_arr, (sconv_list_scalar ds jh Hall). reflexivity.
+      * right. left. exists ds, (length h), (length jh). repeat (split; [reflexivity || assumption|]).
+        split; [apply nth_error_last|apply nth_error_last].
+    + cbn [arr_d orb] in H. pose proof H as Ha. cbn [map_d] in H. apply andb_prop in H. destruct H as [Hall Hasc].
+      exists (VMap (length h)), (JO (length jh)), [OMap (items_of kvs) []], [JObjO (props_of kvs)].
+      split; [|split].
+      * exact (convert_map kvs h Hall).
+      * cbn [sd_of]. rewrite sdata_map, (sconv_props_scalar kvs jh Hall). cbv zeta.
+        rewrite (sorted_id (props_of kvs)) by (rewrite props_of_keys; exact Hasc). reflexivity.
+      * right. right. exists kvs, (length h), (length jh). repeat (split; [reflexivity || assumption|]).
+        split; [apply nth_error_last|apply nth_error_last].
+Qed.
+
+Definition entry_shape (kv : bytes * dval) : bool := scalar_d (snd kv) || coll_d (snd kv).
+
+Lemma conv_items_rel l : forall h jh, forallb entry_shape l = true ->
+  exists items env e e',
+    conv_items l h = (items, h ++ e) /\
+    sconv_env (map (fun kv => (fst kv, sd_of (snd kv))) l) jh = (env, jh ++ e') /\
+    forall x, match lookup x l with
+              | Some d => exists v j, lookup x items = Some v /\ lookup x env = Some j /\ dr (h ++ e) (jh ++ e') d v j
+              | None => lookup x items = None /\ lookup x env = None
+              end.
+Proof.
+  induction l as [|[k d] r IH]; intros h jh H.
+  - exists [], [], [], []. rewrite !app_nil_r. split; [reflexivity|]. split; [reflexivity|]. intros x. split; reflexivity.
+  - cbn [forallb] in H. apply andb_prop in H. destruct H as [Hd Hr].
+    destruct (convert_dr h jh d Hd) as (v & j & e1 & e1' & Cv & Cj & Hdr).
+    destruct (IH (h ++ e1) (jh ++ e1') Hr) as (items & env & e2 & e2' & Ci & Ce & Hx).
+    exists (insert k v items), (insert k j env), (e1 ++ e2), (e1' ++ e2').
+    split; [|split].
+    + cbn [conv_items]. rewrite Cv. fold conv_items. rewrite Ci, app_assoc. reflexivity.
+    + cbn [map fst snd sconv_env]. rewrite Cj. fold sconv_env. rewrite Ce, app_assoc. reflexivity.
+    + intros x. cbn [lookup]. destruct (beqb x k) eqn:E.
+      * apply beqb_eq in E. subst x. exists v, j. rewrite !lookup_insert_same. split; [reflexivity|]. split; [reflexivity|].
+        rewrite !app_assoc. apply dr_ext. exact Hdr.
+      * apply beqb_neq in E. assert (E' : k <> x) by congruence.
+        rewrite !(lookup_insert_other k x _ _ E'). rewrite !app_assoc. exact (Hx x).
+Qed.
+
+(* the two initial states *)
+Definition g_init_arr (l : list (bytes * dval)) : sstate :=
+  let '(env, jh) := sconv_env (map (fun kv => (fst kv, sd_of (snd kv))) l) [] in
+  {| s_env := env; s_heap := jh; s_out := []; s_flags := []; s_grown := [] |}.
+Definition globals_at (items : list (bytes * val)) (gl : nat) : vars :=
+  flat_map (fun k => let x := member_lookup items k in [(k, x); (lower_first k, x)])
+           (sort_bytes (keys items)) ++ [(B "global", VMap gl)].
+Definition s_init_arr (l : list (bytes * dval)) : xstate :=
+  let '(items, h1) := conv_items l [] in
+  {| x_frames := [{| f_vars := globals_at items (S (length h1)); f_globals := globals_at items (S (length h1));
+                     f_bound := []; f_depth := 0 |}];
+     x_heap := (h1 ++ [OMap items []]) ++ [OMap [] []]; x_out := [] |}.
+
+Lemma init_state_eq l : init_state (DMap l) = Some (s_init_arr l).
+Proof.
+  unfold init_state, s_init_arr. rewrite convert_dmap. destruct (conv_items l []) as [items h1]. unfold alloc.
+  unfold hget. rewrite nth_error_last. rewrite app_length, Nat.add_1_r. reflexivity.
+Qed.
+
+Lemma sem_run_eq nodes l :
+  sem_run nodes (sd_top (DMap l)) =
+  match sem_nodes (s_env (g_init_arr l)) sem_fuel [] None (g_init_arr l) nodes with
+  | SOk (s, _) => SOut (soutput s) (s_flags s)
+  | SErr fl => SError fl
+  | SOff => SOffDomain
+  | SFuel => SNoFuel
+  end.
+Proof.
+  unfold sem_run, sd_top, g_init_arr. cbn [sd_of]. unfold sconv_env.
+  match goal with |- context [let '(env, h) := ?t in _] => destruct t as [env jh] end. reflexivity.
+Qed.
+
+Lemma var_val_globals items gl x :
+  (forall k, In k (keys items) -> lower_first k = k) -> x <> B "global" ->
+  var_val (globals_at items gl) x = match lookup x items with Some v => v | None => VInvalid end.
+Proof.
+  intros Hok Hx. unfold var_val, globals_at. rewrite var_get_app_new.
+  destruct (beqb (B "global") x) eqn:E; [apply beqb_eq in E; congruence|].
+  rewrite (var_get_flat (fun k => member_lookup items k) x).
+  - rewrite mem_sort_bytes. destruct (lookup x items) as [v|] eqn:El.
+    + assert (Hm : mem x (keys items) = true) by (apply mem_In, lookup_In_keys; exists v; exact El).
+      rewrite Hm. unfold member_lookup. rewrite El. reflexivity.
+    + assert (Hm : mem x (keys items) = false).
+      { apply mem_false_In. intros H. apply lookup_In_keys in H. destruct H as [v H]. congruence. }
+      rewrite Hm. reflexivity.
+  - intros k Hk. apply (proj1 (In_sort_bytes _ _)) in Hk. exact (Hok k Hk).
+Qed.
+
+Lemma scalars_rel ds : forallb scalar_d ds = true ->
+  Forall2 (fun a b => repu a b /\ jv_ok b) (map cv ds) (map sv ds).
+Proof.
+  induction ds as [|d r IH]; intros H; [constructor|]. cbn [forallb] in H. apply andb_prop in H. destruct H as [Hd Hr].
+  cbn [map]. constructor; [|exact (IH Hr)]. destruct (rep_cv_sv d Hd) as [H1 H2]. split; [left; exact H1|exact H2].
+Qed.
+
+Lemma entries_shape names l : forallb (entry_ok_arr names) l = true -> forallb entry_shape l = true.
+Proof.
+  induction l as [|kv r IH]; cbn [forallb]; intros H; [reflexivity|].
+  apply andb_prop in H. destruct H as [H1 H2]. rewrite (IH H2), andb_true_r.
+  unfold entry_ok_arr in H1. apply andb_prop in H1. destruct H1 as [H1 _]. unfold entry_shape.
+  destruct (scalar_d (snd kv)); [reflexivity|]. cbn [orb] in *. apply andb_prop in H1. exact (proj1 H1).
+Qed.
+
+Lemma R_init_arr names l D :
+  forallb (entry_ok_arr names) l = true -> mem (B "global") D = true ->
+  R names repu jv_ok D (s_init_arr l) (g_init_arr l).
 Proof.
   intros Hok Hg.
-  assert (Hd : forall x d, lookup x l = Some d -> scalar_d d = true).
-  { intros x d H. apply lookup_In in H. rewrite forallb_forall in Hok. specialize (Hok _ H).
-    unfold entry_ok in Hok. apply andb_prop in Hok. destruct Hok as [Hs _]. exact Hs. }
+  destruct (conv_items_rel l [] [] (entries_shape names l Hok)) as (items & env & e & e' & Ci & Ce & Hx).
+  cbn [app] in Ci, Ce, Hx.
+  assert (Hent : forall x d, lookup x l = Some d -> entry_ok_arr names (x, d) = true).
+  { intros x d H. apply lookup_In in H. rewrite forallb_forall in Hok. exact (Hok _ H). }
+  assert (Hlf : forall k, In k (keys items) -> lower_first k = k).
+  { intros k Hk. apply lookup_In_keys in Hk. destruct Hk as [v Hv]. specialize (Hx k).
+    destruct (lookup k l) as [d|] eqn:El; [|destruct Hx as [Hn _]; congruence].
+    specialize (Hent k d El). unfold entry_ok_arr in Hent. apply andb_prop in Hent. destruct Hent as [_ Hl].
+    cbn [fst] in Hl. apply beqb_eq in Hl. exact Hl. }
+  unfold s_init_arr, g_init_arr. rewrite Ci, Ce.
+  set (gl := S (length e)).
+  assert (Hvar : forall x, mem x D = false ->
+            var_val (globals_at items gl) x = match lookup x items with Some v => v | None => VInvalid end).
+  { intros x Hd. apply var_val_globals; [exact Hlf|]. intros ->. congruence. }
+  assert (Hrel : forall x, mem x D = false ->
+            match lookup x l with
+            | Some d => exists v j, var_val (globals_at items gl) x = v /\ env_get env x = j /\ dr e e' d v j
+            | None => var_val (globals_at items gl) x = VInvalid /\ env_get env x = JUndef
+            end).
+  { intros x Hd. rewrite (Hvar x Hd). unfold env_get. specialize (Hx x). destruct (lookup x l) as [d|].
+    - destruct Hx as (v & j & Lv & Lj & Hdr). exists v, j. rewrite Lv, Lj. repeat split. exact Hdr.
+    - destruct Hx as [-> ->]. split; reflexivity. }
   split.
-  - unfold live, s_init. cbn [x_frames]. discriminate.
-  - intros x Hx. cbn [s_init cur x_frames rev app f_vars g_init s_env].
-    assert (Hne : x <> B "global") by (intros ->; apply mem_In in Hx; congruence).
-    rewrite (var_val_init l x Hok Hne). unfold env_get. rewrite lookup_senv.
-    destruct (lookup x l) as [d|] eqn:El; cbn [option_map].
-    + left. exact (proj1 (rep_cv_sv d (Hd x d El))).
-    + left. constructor.
-  - intros x Hx. cbn [g_init s_env]. unfold env_get. rewrite lookup_senv.
-    destruct (lookup x l) as [d|] eqn:El; cbn [option_map]; [|exact I].
-    exact (proj2 (rep_cv_sv d (Hd x d El))).
+  - unfold live. cbn [x_frames]. discriminate.
+  - intros x Hd Hn. cbn [cur x_frames rev app f_vars s_env]. specialize (Hrel x Hd).
+    destruct (lookup x l) as [d|] eqn:El.
+    + destruct Hrel as (v & j & -> & -> & Hdr). specialize (Hent x d El). unfold entry_ok_arr in Hent. cbn [fst snd] in Hent.
+      apply andb_prop in Hent. destruct Hent as [Hs _].
+      assert (Hsc : scalar_d d = true).
+      { destruct (scalar_d d); [reflexivity|]. cbn [orb] in Hs. apply andb_prop in Hs. destruct Hs as [_ Hm].
+        apply negb_true_iff in Hm. apply mem_In in Hn. congruence. }
+      destruct Hdr as [(_ & -> & ->)|[(ds & ? & ? & -> & _)|(kvs & ? & ? & -> & _)]]; [|discriminate Hsc|discriminate Hsc].
+      left. exact (proj1 (rep_cv_sv d Hsc)).
+    + destruct Hrel as [-> ->]. left. constructor.
+  - intros x Hd Hn. cbn [s_env]. specialize (Hrel x Hd).
+    destruct (lookup x l) as [d|] eqn:El.
+    + destruct Hrel as (v & j & _ & <- & Hdr).
+      destruct Hdr as [(Hsc & _ & ->)|[(ds & ? & ? & _ & _ & _ & -> & _)|(kvs & ? & ? & _ & _ & _ & -> & _)]];
+        [exact (proj2 (rep_cv_sv d Hsc))|exact I|exact I].
+    + destruct Hrel as [_ ->]. exact I.
+  - intros x Hd. cbn [cur x_frames rev app f_vars s_env x_heap s_heap]. specialize (Hrel x Hd).
+    destruct (lookup x l) as [d|] eqn:El.
+    + destruct Hrel as (v & j & -> & -> & Hdr).
+      destruct Hdr as [(Hsc & -> & ->)|[(ds & lo & lo' & -> & Ha & -> & -> & Hh & Hj)|(kvs & lo & lo' & -> & Ha & -> & -> & Hh & Hj)]].
+      * left. left. exact (proj1 (rep_cv_sv d Hsc)).
+      * right. left. cbn [arr_d] in Ha. apply andb_prop in Ha. destruct Ha as [Hall Hlen].
+        exists lo, lo', (map cv ds), (map sv ds). split; [reflexivity|]. split; [reflexivity|].
+        split; [rewrite <- app_assoc; exact (nth_error_ext e _ lo _ Hh)|]. split; [exact Hj|].
+        split; [exact (scalars_rel ds Hall)|rewrite map_length; exact Hlen].
+      * right. right. cbn [map_d] in Ha. apply andb_prop in Ha. destruct Ha as [Hall Hasc].
+        exists lo, lo', (items_of kvs), (props_of kvs). split; [reflexivity|]. split; [reflexivity|].
+        split; [rewrite <- app_assoc; exact (nth_error_ext e _ lo _ Hh)|]. split; [exact Hj|].
+        exact (map_members_rel kvs Hall Hasc).
+    + destruct Hrel as [-> ->]. left. left. constructor.
+  - reflexivity.
   - reflexivity.
 Qed.
 
 (* ---- whole renders -------------------------------------------------------------------------------------------------- *)
 Lemma lower_nodes_list funcs goodb nodes t :
   lower_nodes funcs goodb nodes = Some t ->
-  lower_list (lower funcs goodb (S (pnode_size (PBlock nodes)))) nodes = Some t.
-Proof. exact (fun H => H). Qed.
+  lower_list (lower funcs goodb (dead0 nodes) (S (pnode_size (PBlock nodes)))) nodes = Some t.
+Proof. unfold lower_nodes. destruct (trim_clash nodes); [discriminate|]. exact (fun H => H). Qed.
 
 Local Strategy opaque [exec_nodes exec_node sem_nodes sem_node exec_fuel sem_fuel lower pnode_size].
-Theorem program_scalar funcs names nodes t d :
-  lower_nodes funcs (goodS funcs names) nodes = Some t -> data_ok names d = true ->
+Theorem program_each funcs names nodes t d :
+  lower_nodes funcs (goodS funcs names) nodes = Some t -> data_ok_arr names d = true ->
   match sem_run nodes (sd_top d) with
   | SOut o [] => run_program {| p_main := t; p_defs := [] |} d = OOk o \/
                  run_program {| p_main := t; p_defs := [] |} d = OFuel
@@ -272,46 +763,85 @@ Theorem program_scalar funcs names nodes t d :
   end.
 Proof.
   intros Hl Hd. destruct d as [| | | | |l]; try discriminate Hd.
-  cbn [data_ok] in Hd. apply andb_prop in Hd. destruct Hd as [Hok Hg]. apply negb_true_iff in Hg.
-  pose proof (entries_scalar l Hok) as Hsc.
-  rewrite (sem_run_scalar nodes l Hsc).
-  unfold run_program. rewrite (init_state_scalar l Hsc). cbn [p_main p_defs].
-  pose proof (proj1 (sim_scalar funcs names (senv_of l) sem_fuel) nodes [] None (g_init l)
-                    (S (pnode_size (PBlock nodes))) t VInvalid (s_init l)
-                    (lower_nodes_list _ _ _ _ Hl) (R_init names l Hok Hg)) as Hsim.
+  cbn [data_ok_arr] in Hd. apply andb_prop in Hd. destruct Hd as [Hok _].
+  rewrite (sem_run_eq nodes l).
+  unfold run_program. rewrite (init_state_eq l). cbn [p_main p_defs].
+  pose proof (proj1 (sim_scalar funcs names (s_env (g_init_arr l)) sem_fuel) nodes [] None (g_init_arr l) (dead0 nodes)
+                    (S (pnode_size (PBlock nodes))) t VInvalid (s_init_arr l)
+                    (lower_nodes_list _ _ _ _ Hl) (R_init_arr names l (dead0 nodes) Hok eq_refl)) as Hsim.
   unfold sim_ok, sim_res in Hsim.
-  destruct (sem_nodes (senv_of l) sem_fuel [] None (g_init l) nodes) as [[g' m']|fl| |]; try exact I.
+  destruct (sem_nodes (s_env (g_init_arr l)) sem_fuel [] None (g_init_arr l) nodes) as [[g' m']|fl| |]; try exact I.
   - destruct (s_flags g') as [|k fl'] eqn:Hfl; [|exact I].
-    destruct (Hsim eq_refl) as (_ & f & s' & Hx & Rr).
-    destruct (exec_nodes [] exec_fuel VInvalid (s_init l) t) as [s2| | |] eqn:He; [left|exfalso|exfalso|right; reflexivity].
-    + assert (Heq : exec_nodes [] f VInvalid (s_init l) t = exec_nodes [] exec_fuel VInvalid (s_init l) t).
+    assert (Hf0 : [] = s_flags (g_init_arr l)) by (unfold g_init_arr; destruct (sconv_env _ _); reflexivity).
+    destruct (Hsim Hf0) as (_ & f & s' & Hx & Rr).
+    destruct (exec_nodes [] exec_fuel VInvalid (s_init_arr l) t) as [s2| | |] eqn:He; [left|exfalso|exfalso|right; reflexivity].
+    + assert (Heq : exec_nodes [] f VInvalid (s_init_arr l) t = exec_nodes [] exec_fuel VInvalid (s_init_arr l) t).
       { destruct (Nat.le_ge_cases f exec_fuel) as [Hle|Hle].
         - symmetry. apply exec_nodes_mono; [exact Hle|rewrite Hx; apply fin_ok].
         - apply exec_nodes_mono; [exact Hle|rewrite He; apply fin_ok]. }
-      rewrite Hx, He in Heq. injection Heq as <-. rewrite (R_out _ _ _ _ _ Rr). reflexivity.
-    + assert (Heq : exec_nodes [] f VInvalid (s_init l) t = exec_nodes [] exec_fuel VInvalid (s_init l) t).
+      rewrite Hx, He in Heq. injection Heq as <-. rewrite (R_out _ _ _ _ _ _ Rr). reflexivity.
+    + assert (Heq : exec_nodes [] f VInvalid (s_init_arr l) t = exec_nodes [] exec_fuel VInvalid (s_init_arr l) t).
       { destruct (Nat.le_ge_cases f exec_fuel) as [Hle|Hle].
         - symmetry. apply exec_nodes_mono; [exact Hle|rewrite Hx; apply fin_ok].
         - apply exec_nodes_mono; [exact Hle|rewrite He; apply fin_panic]. }
       rewrite Hx, He in Heq. discriminate Heq.
-    + assert (Heq : exec_nodes [] f VInvalid (s_init l) t = exec_nodes [] exec_fuel VInvalid (s_init l) t).
+    + assert (Heq : exec_nodes [] f VInvalid (s_init_arr l) t = exec_nodes [] exec_fuel VInvalid (s_init_arr l) t).
       { destruct (Nat.le_ge_cases f exec_fuel) as [Hle|Hle].
         - symmetry. apply exec_nodes_mono; [exact Hle|rewrite Hx; apply fin_ok].
         - apply exec_nodes_mono; [exact Hle|rewrite He; unfold fin; discriminate]. }
       rewrite Hx, He in Heq. discriminate Heq.
   - destruct fl as [|k fl']; [|exact I].
-    destruct (Hsim eq_refl) as (f & Hx).
-    destruct (exec_nodes [] exec_fuel VInvalid (s_init l) t) as [s2| | |] eqn:He; [exfalso|left; reflexivity|exfalso|right; reflexivity].
-    + assert (Heq : exec_nodes [] f VInvalid (s_init l) t = exec_nodes [] exec_fuel VInvalid (s_init l) t).
+    assert (Hf0 : [] = s_flags (g_init_arr l)) by (unfold g_init_arr; destruct (sconv_env _ _); reflexivity).
+    destruct (Hsim Hf0) as (f & Hx).
+    destruct (exec_nodes [] exec_fuel VInvalid (s_init_arr l) t) as [s2| | |] eqn:He; [exfalso|left; reflexivity|exfalso|right; reflexivity].
+    + assert (Heq : exec_nodes [] f VInvalid (s_init_arr l) t = exec_nodes [] exec_fuel VInvalid (s_init_arr l) t).
       { destruct (Nat.le_ge_cases f exec_fuel) as [Hle|Hle].
         - symmetry. apply exec_nodes_mono; [exact Hle|rewrite Hx; apply fin_panic].
         - apply exec_nodes_mono; [exact Hle|rewrite He; apply fin_ok]. }
       rewrite Hx, He in Heq. discriminate Heq.
-    + assert (Heq : exec_nodes [] f VInvalid (s_init l) t = exec_nodes [] exec_fuel VInvalid (s_init l) t).
+    + assert (Heq : exec_nodes [] f VInvalid (s_init_arr l) t = exec_nodes [] exec_fuel VInvalid (s_init_arr l) t).
       { destruct (Nat.le_ge_cases f exec_fuel) as [Hle|Hle].
         - symmetry. apply exec_nodes_mono; [exact Hle|rewrite Hx; apply fin_panic].
         - apply exec_nodes_mono; [exact Hle|rewrite He; unfold fin; discriminate]. }
       rewrite Hx, He in Heq. discriminate Heq.
+Qed.
+
+(* data without arrays: [data_ok] is a special case of [data_ok_arr] *)
+Lemma data_ok_arr_of names d : data_ok names d = true -> data_ok_arr names d = true.
+Proof.
+  destruct d as [| | | | |l]; try discriminate. cbn [data_ok data_ok_arr]. intros H.
+  apply andb_prop in H. destruct H as [He Hg]. rewrite Hg, andb_true_r.
+  apply forallb_forall. intros kv Hkv. rewrite forallb_forall in He. specialize (He kv Hkv).
+  unfold entry_ok in He. unfold entry_ok_arr. apply andb_prop in He. destruct He as [-> ->]. reflexivity.
+Qed.
+
+Theorem program_scalar funcs names nodes t d :
+  lower_nodes funcs (goodS funcs names) nodes = Some t -> data_ok names d = true ->
+  match sem_run nodes (sd_top d) with
+  | SOut o [] => run_program {| p_main := t; p_defs := [] |} d = OOk o \/
+                 run_program {| p_main := t; p_defs := [] |} d = OFuel
+  | SError [] => run_program {| p_main := t; p_defs := [] |} d = OPanic \/
+                 run_program {| p_main := t; p_defs := [] |} d = OFuel
+  | _ => True
+  end.
+Proof. intros Hl Hd. exact (program_each funcs names nodes t d Hl (data_ok_arr_of names d Hd)). Qed.
+
+(* one each node from related states, for the scalar fragment *)
+Lemma each_scalar funcs names globals fs m blk g D fl v k c body tb dot s :
+  mem c D = false -> mem v D = true -> (forall k', k = Some k' -> mem k' D = true /\ k' <> v) ->
+  lower_list (lower funcs (goodS funcs names) (undead (v :: opt_list k) D) fl) body = Some tb ->
+  R names repu jv_ok D s g ->
+  sim_res names repu jv_ok D (fun fM => exec_node [] fM dot s (NRange (opt_list k ++ [v], [[AVar c []]]) tb [])) g m
+          (sem_node globals (S fs) m blk g (PEach v k (JId c) body)).
+Proof.
+  intros Hc Hv Hk Lb Rr.
+  assert (HG : G_nodes funcs (goodS funcs names) globals fs).
+  { apply (grows_all funcs (goodS funcs names) globals).
+    - intros e Hg. exact (goodS_mono funcs names e Hg).
+    - intros e Hg. exact (goodS_noerr funcs names e Hg). }
+  apply (each_sim funcs (goodS funcs names) names globals repu jv_ok repu_int_intro repu_not_ref repu_nullish
+                  repu_gostr_intro jv_ok_num jv_ok_str
+                  fs m blk g D fl v k c body tb dot s (proj1 (sim_scalar funcs names globals fs)) HG Hc Hv Hk Lb Rr).
 Qed.
 
 (* ---- non-vacuity: nested if / else-if / else, a counting while with ++ and an assignment inside, variables
@@ -352,3 +882,85 @@ Proof.
   pose proof (program_scalar ex_funcs x_names x_nodes t x_data Hl (proj1 x_both_sides)) as H.
   rewrite (proj1 (proj2 x_both_sides)) in H. exact H.
 Qed.
+
+(* ---- non-vacuity of the each / case / literal part: each with and without key over an array of the data (a sum kept
+   after the loop, an if inside the body), each over an empty array and over a missing variable, each over a data map, a case with a hit, a
+   case falling to its default, buffered literals ------------------------------------------------------------------- *)
+Definition e_names : list bytes := [B "n"; B "sum"; B "v"; B "k"; B "w"].
+Definition e_data : dval :=
+  DMap [(B "n", DInt 3); (B "xs", DArr [DInt 10; DInt 20; DInt 12]); (B "ys", DArr [DStr (B "a<"); DBool true; DNil]);
+        (B "none", DArr []); (B "conf", DMap [(B "a", DInt 1); (B "b", DStr (B "x")); (B "c", DBool false)])].
+Definition e_nodes : list pnode :=
+  [PCode [SVar [JVar (B "sum") (Some (JNum 0))]] false false;
+   PTag (B "ul") false [] []
+     [PEach (B "v") (Some (B "k")) (JId (B "xs"))
+        [PTag (B "li") false [] []
+           [PCode [SExpr (JId (B "k"))] true true; PText (B ":"); PCode [SExpr (JId (B "v"))] true true;
+            PCond (JBin BGt (JId (B "v")) (JNum 15)) [PText (B "!")] None];
+         PCode [SExpr (JAssign None (JId (B "sum")) (JBin BAdd (JId (B "sum")) (JId (B "v"))))] false false]];
+   PCode [SExpr (JId (B "sum"))] true true;
+   PEach (B "w") None (JId (B "ys")) [PText (B "["); PCode [SExpr (JId (B "w"))] true true; PText (B "]")];
+   PEach (B "w") None (JId (B "none")) [PText (B "never")];
+   PEach (B "w") None (JId (B "missing")) [PText (B "never")];
+   PEach (B "v") (Some (B "k")) (JId (B "conf"))
+     [PCode [SExpr (JId (B "k"))] true true; PText (B "="); PCode [SExpr (JId (B "v"))] true true; PText (B ";")];
+   PCase (JId (B "n"))
+     [(Some (JNum 1), [PText (B "one")]); (None, [PText (B "other")]); (Some (JBin BAdd (JNum 1) (JNum 2)), [PText (B "three")])];
+   PCase (JId (B "sum")) [(Some (JNum 1), [PText (B "one")]); (None, [PText (B "dflt")])];
+   PCode [SExpr (JStr (B "a<b"))] true true; PCode [SExpr (JNum 12)] true true; PCode [SExpr (JBool true)] false true].
+
+Definition e_out : bytes := B "<ul><li>0:10</li><li>1:20!</li><li>2:12</li></ul>42[a&lt;][true][]a=1;b=x;c=false;threedflta&lt;b12true".
+
+Example e_both_sides :
+  data_ok_arr e_names e_data = true /\
+  sem_run e_nodes (sd_top e_data) = SOut e_out [] /\
+  match lower_nodes ex_funcs (goodS ex_funcs e_names) e_nodes with
+  | Some t => run_program {| p_main := t; p_defs := [] |} e_data = OOk e_out
+  | None => False
+  end.
+Proof. vm_compute. repeat split; reflexivity. Qed.
+
+Example e_theorem_applies :
+  exists t, lower_nodes ex_funcs (goodS ex_funcs e_names) e_nodes = Some t /\
+            (run_program {| p_main := t; p_defs := [] |} e_data = OOk e_out \/
+             run_program {| p_main := t; p_defs := [] |} e_data = OFuel).
+Proof.
+  destruct (lower_nodes ex_funcs (goodS ex_funcs e_names) e_nodes) as [t|] eqn:Hl; [|vm_compute in Hl; discriminate Hl].
+  exists t. split; [reflexivity|].
+  pose proof (program_each ex_funcs e_names e_nodes t e_data Hl (proj1 e_both_sides)) as H.
+  rewrite (proj1 (proj2 e_both_sides)) in H. exact H.
+Qed.
+
+(* the scoping discipline is what makes the theorem true: a loop variable read after its loop is pug's undefined
+   but the engine's last element — S and the engine differ there, and the lowering declines such a program *)
+Definition leak_nodes : list pnode :=
+  [PEach (B "w") None (JId (B "xs")) [PText (B ".")]; PCode [SExpr (JId (B "w"))] true true].
+Example loop_variable_leak_declined :
+  lower_nodes ex_funcs (goodS ex_funcs e_names) leak_nodes = None /\
+  sem_run leak_nodes (sd_top e_data) = SOut (B "...") [].
+Proof. vm_compute. split; reflexivity. Qed.
+
+Lemma e_program_runs :
+  data_ok_arr e_names e_data = true /\
+  exists t, lower_nodes ex_funcs (goodS ex_funcs e_names) e_nodes = Some t /\
+            (run_program {| p_main := t; p_defs := [] |} e_data = OOk e_out \/
+             run_program {| p_main := t; p_defs := [] |} e_data = OFuel).
+Proof. exact (conj (proj1 e_both_sides) e_theorem_applies). Qed.
+
+(* a doctype and a buffered null *)
+Definition d_nodes : list pnode := [PDoctype (B "html"); PCode [SExpr JNull] true true; PTag (B "p") false [] [] [PText (B "x")]].
+Example d_both_sides :
+  sem_run d_nodes (sd_top x_data) = SOut (B "<!DOCTYPE html>" ++ [ascii_of_N 10] ++ B "<p>x</p>") [] /\
+  match lower_nodes ex_funcs (goodS ex_funcs x_names) d_nodes with
+  | Some t => run_program {| p_main := t; p_defs := [] |} x_data = OOk (B "<!DOCTYPE html>" ++ [ascii_of_N 10] ++ B "<p>x</p>")
+  | None => False
+  end.
+Proof. vm_compute. split; reflexivity. Qed.
+
+(* on both examples the tree-level lowering runs as the parsed compiled token stream does (the judge's [lower_seam],
+   which checks this on every correspondence case of the fragment) *)
+Definition seam_case (ns : list pnode) : caseC :=
+  {| c_nodes := ns; c_datas := []; c_funcs := ex_funcs;
+     c_prod := {| o_loaded := true; o_code := []; o_res := [] |}; c_debug := None |}.
+Example e_seam_agrees : lower_seam (seam_case e_nodes) e_data = 0%nat /\ lower_seam (seam_case d_nodes) x_data = 0%nat.
+Proof. vm_compute. split; reflexivity. Qed.
